@@ -124,6 +124,17 @@ func condLen(v ssa.Value) (ssa.Value, lenSet, bool) {
 		return nil, 0, false
 	}
 	op := b.Op
+	// s != "" / s == ""
+	if op == token.EQL || op == token.NEQ {
+		for _, pr := range [][2]ssa.Value{{b.X, b.Y}, {b.Y, b.X}} {
+			if cst, ok := pr[1].(*ssa.Const); ok && cst.Value != nil && cst.Value.Kind() == constant.String && constant.StringVal(cst.Value) == "" {
+				if op == token.EQL {
+					return pr[0], lenEQ(0), true
+				}
+				return pr[0], lenGE(1), true
+			}
+		}
+	}
 	lx, lok := lenOf(b.X)
 	c, cok := constInt64(b.Y)
 	if !lok || !cok {
@@ -304,6 +315,17 @@ func indexSites(fn *ssa.Function) []*indexSite {
 				}
 				add(x, x.X, x.Low, true, "slice-low")
 				add(x, x.X, x.High, true, "slice-high")
+				// low <= high: X[a : len(X)-k] needs len >= a+k
+				if x.Low != nil && x.High != nil {
+					if a, ok := constInt64(x.Low); ok {
+						if hb, k, ok := lenMinus(x.High); ok && sameLenBase(hb, x.X) && a+k > 0 {
+							s := &indexSite{Instr: x, Base: x.X, Need: a + k, Desc: fmt.Sprintf("slice %d:len-%d", a, k), Pos: x.Pos()}
+							s.Fact = domFacts(x.Block(), x.X)
+							s.Proven = s.Fact&^lenGE(a+k) == 0
+							out = append(out, s)
+						}
+					}
+				}
 			}
 		}
 	}
@@ -377,4 +399,209 @@ func exprOfValue(v ssa.Value) string {
 		return exprOfValue(x.X)
 	}
 	return v.Name()
+}
+
+// ---- variable indices -------------------------------------------------------
+
+// idxPlus decomposes v into (base index value, constant offset).
+func idxPlus(v ssa.Value) (ssa.Value, int64) {
+	if b, ok := v.(*ssa.BinOp); ok {
+		if k, ok := constInt64(b.Y); ok {
+			if b.Op == token.ADD {
+				x, k0 := idxPlus(b.X)
+				return x, k0 + k
+			}
+			if b.Op == token.SUB {
+				x, k0 := idxPlus(b.X)
+				return x, k0 - k
+			}
+		}
+		if k, ok := constInt64(b.X); ok && b.Op == token.ADD {
+			x, k0 := idxPlus(b.Y)
+			return x, k0 + k
+		}
+	}
+	if c, ok := v.(*ssa.Convert); ok {
+		return idxPlus(c.X)
+	}
+	return v, 0
+}
+
+// lenValueOf: v is len(base) (possibly computed earlier and kept in a value).
+func lenValueOf(v ssa.Value, base ssa.Value) bool {
+	if x, ok := lenOf(v); ok && sameLenBase(x, base) {
+		return true
+	}
+	return false
+}
+
+// nonNegative: the index value cannot be negative: constants >= 0, len(),
+// loop counters starting at a non-negative value and only incremented, range
+// indices.
+func nonNegative(v ssa.Value, depth int, seen map[ssa.Value]bool) bool {
+	if depth > 6 || seen[v] {
+		return seen[v]
+	}
+	seen[v] = true
+	if k, ok := constInt64(v); ok {
+		return k >= 0
+	}
+	if _, ok := lenOf(v); ok {
+		return true
+	}
+	switch x := v.(type) {
+	case *ssa.Phi:
+		for _, e := range x.Edges {
+			if !nonNegative(e, depth+1, seen) {
+				return false
+			}
+		}
+		return true
+	case *ssa.BinOp:
+		if x.Op == token.ADD {
+			return nonNegative(x.X, depth+1, seen) && nonNegative(x.Y, depth+1, seen)
+		}
+		if x.Op == token.MUL || x.Op == token.QUO || x.Op == token.REM {
+			return nonNegative(x.X, depth+1, seen) && nonNegative(x.Y, depth+1, seen)
+		}
+	case *ssa.Extract:
+		if _, ok := x.Tuple.(*ssa.Next); ok && x.Index == 1 {
+			return true
+		}
+	case *ssa.Convert:
+		return nonNegative(x.X, depth+1, seen)
+	}
+	return false
+}
+
+// varIndexSite: an index expression whose index is not a constant / len-k.
+type varIndexSite struct {
+	Instr  ssa.Instruction
+	Base   ssa.Value
+	Index  ssa.Value
+	Proven bool
+	Why    string
+	Pos    token.Pos
+	Slice  bool
+}
+
+// upperBounded: dominating conditions give idx+off < len(base) (or <= len for slices).
+func upperBounded(blk *ssa.BasicBlock, base ssa.Value, idx ssa.Value, off int64, allowEq bool) bool {
+	ok := false
+	dominatingConds(blk, func(cond ssa.Value, taken bool, at *ssa.BasicBlock) {
+		b, isB := cond.(*ssa.BinOp)
+		if !isB {
+			return
+		}
+		op, x, y := b.Op, b.X, b.Y
+		if !taken {
+			switch op {
+			case token.LSS:
+				op = token.GEQ
+			case token.LEQ:
+				op = token.GTR
+			case token.GTR:
+				op = token.LEQ
+			case token.GEQ:
+				op = token.LSS
+			case token.EQL:
+				op = token.NEQ
+			case token.NEQ:
+				op = token.EQL
+			default:
+				return
+			}
+		}
+		// normalise to  L < R  or  L <= R
+		var l, r ssa.Value
+		strict := false
+		switch op {
+		case token.LSS:
+			l, r, strict = x, y, true
+		case token.LEQ:
+			l, r = x, y
+		case token.GTR:
+			l, r, strict = y, x, true
+		case token.GEQ:
+			l, r = y, x
+		default:
+			return
+		}
+		li, lo := idxPlus(l)
+		ri, ro := idxPlus(r)
+		if li != idx || !lenValueOf(ri, base) {
+			return
+		}
+		// li + lo  <(=)  len + ro   =>  li + off < len  iff  off <= lo - ro - (strict?0:1)
+		slack := lo - ro
+		if !strict {
+			slack--
+		}
+		need := off
+		if allowEq {
+			need = off - 1
+		}
+		if need <= slack {
+			ok = true
+		}
+	})
+	return ok
+}
+
+func varIndexSites(fn *ssa.Function) []*varIndexSite {
+	var out []*varIndexSite
+	add := func(ins ssa.Instruction, base, idx ssa.Value, isSlice bool) {
+		if idx == nil {
+			return
+		}
+		if _, ok := constInt64(idx); ok {
+			return
+		}
+		if x, _, ok := lenMinus(idx); ok && sameLenBase(x, base) {
+			return
+		}
+		i, off := idxPlus(idx)
+		s := &varIndexSite{Instr: ins, Base: base, Index: idx, Pos: ins.Pos(), Slice: isSlice}
+		up := upperBounded(ins.Block(), base, i, off, isSlice)
+		lowOK := nonNegative(idx, 0, map[ssa.Value]bool{})
+		// range-over-slice index: Extract #0 of Next? (go/ssa lowers slice ranges to counters)
+		switch {
+		case up && lowOK:
+			s.Proven, s.Why = true, "0 <= index and a dominating comparison bounds it by len"
+		case up:
+			s.Why = "upper bound established, sign of the index not"
+		case lowOK:
+			s.Why = "index is non-negative, no dominating comparison with len"
+		default:
+			s.Why = "no bound established"
+		}
+		out = append(out, s)
+	}
+	for _, b := range fn.Blocks {
+		for _, ins := range b.Instrs {
+			switch x := ins.(type) {
+			case *ssa.IndexAddr:
+				if _, isArr := derefType(x.X.Type()).Underlying().(*types.Array); isArr {
+					continue
+				}
+				add(x, x.X, x.Index, false)
+			case *ssa.Index:
+				if _, isArr := x.X.Type().Underlying().(*types.Array); isArr {
+					continue
+				}
+				add(x, x.X, x.Index, false)
+			case *ssa.Lookup:
+				if _, isMap := x.X.Type().Underlying().(*types.Map); !isMap {
+					add(x, x.X, x.Index, false)
+				}
+			case *ssa.Slice:
+				if _, isArr := derefType(x.X.Type()).Underlying().(*types.Array); isArr {
+					continue
+				}
+				add(x, x.X, x.Low, true)
+				add(x, x.X, x.High, true)
+			}
+		}
+	}
+	return out
 }
